@@ -12,6 +12,7 @@ from typing import Iterator
 
 import numpy as np
 
+from simkit import engineops as EO
 from simkit import env, spec as S
 from simkit.canon import bcast, close_enough, cs, cv, fdec, fenc
 from simkit.core import Outcome, Sim, Violation
@@ -57,7 +58,7 @@ class C02(Sim):
     expected_probes = [
         "nan_row_after_boundary_lock_previous", "nan_first_row_after_restart_with_default", "out_of_range_row_lock_range",
         "one_row_segment", "matrix_setter_single_input", "all_nan_segment", "parity_event", "hybrid_engine",
-        "output_variable_in_antecedent", "vector_setter", "cascade_changed_a_row",
+        "output_variable_in_antecedent", "vector_setter", "cascade_changed_a_row", "configuration_changed_between_segments", "scalar0d_setter",
     ]
 
     # ---------------------------------------------------------------- generation
@@ -69,7 +70,7 @@ class C02(Sim):
         ops = []
         for _ in range(n_ops):
             r = rng.random()
-            if r < 0.78:
+            if r < 0.74:
                 k = rng.choice([1, 1, 2, 3, rng.randint(1, maxrows), maxrows])
                 if rng.random() < 0.06:
                     rows = [[fenc(float("nan"))] * len(sp["inputs"]) for _ in range(k)]
@@ -77,8 +78,16 @@ class C02(Sim):
                     rows = [S.draw_row(rng, sp, special) for _ in range(k)]
                     if rng.random() < 0.25:
                         rows[0] = [fenc(float("nan"))] * len(sp["inputs"])
-                ops.append({"op": "seg", "rows": rows, "setter": rng.choice(["vars", "vars", "matrix", "matrix", "vector"])})
-            elif r < 0.86:
+                setter = rng.choice(["vars", "vars", "matrix", "matrix", "vector", "scalar0d"])
+                if setter == "scalar0d":
+                    rows = [[rows[0][0]] * len(sp["inputs"])]
+                ops.append({"op": "seg", "rows": rows, "setter": setter})
+            elif r < 0.82:
+                if rng.random() < 0.5:
+                    ops.append({"op": "toggle", "path": EO.gen_toggle_path(rng, sp)})
+                else:
+                    ops.append({"op": "edit", "edit": EO.gen_edit(rng, sp)})
+            elif r < 0.87:
                 ops.append({"op": "restart"})
             elif r < 0.91:
                 ops.append({"op": "clear", "out": rng.randrange(2)})
@@ -140,6 +149,16 @@ class C02(Sim):
                 emit(f"{i} clear {j}")
                 sig.append("C")
                 continue
+            if kind in ("toggle", "edit"):
+                for e in (A, B):
+                    if kind == "toggle":
+                        EO.toggle(e, op["path"])
+                    else:
+                        EO.apply_edit(e, op["edit"])
+                st.hit("probes.configuration_changed_between_segments")
+                emit(f"{i} {kind} {op.get('path') or op['edit']['t']}")
+                sig.append(kind[0].upper())
+                continue
             if kind == "set":
                 j = op["out"] % len(A.output_variables)
                 for e in (A, B):
@@ -160,6 +179,12 @@ class C02(Sim):
             arr = np.array(rows, dtype=float).reshape(k, n_in)
             if setter == "vector" and not (n_in == 1 or k == 1):
                 setter = "matrix"
+            if setter == "scalar0d":
+                # a 0-d array sets every input variable to the same single value
+                if k == 1 and len({repr(x) for x in arr[0]}) == 1:
+                    st.hit("probes.scalar0d_setter")
+                else:
+                    setter = "vars"
             sig.append(f"{setter[0]}{k}")
             if k == 1:
                 st.hit("probes.one_row_segment")
@@ -180,6 +205,8 @@ class C02(Sim):
                     A.input_values = arr.copy()
                     if n_in == 1:
                         st.hit("probes.matrix_setter_single_input")
+                elif setter == "scalar0d":
+                    A.input_values = np.array(arr[0, 0])
                 else:
                     A.input_values = (arr[:, 0] if n_in == 1 else arr[0, :]).copy()
                     st.hit("probes.vector_setter")
